@@ -4,17 +4,20 @@ import vlib
 
 TARGETS = ["Base/Num.vo", "Base/Corr.vo", "C16/Model.vo", "C16/Spec.vo", "C16/ProofsMax.vo", "C16/ProofsEM.vo",
            "C16/ProofsModel.vo", "C16/Corr.vo", "C16/ProofsCorr.vo", "C16/ModelHmm.vo", "C16/ProofsBW.vo",
-           "C16/ProofsBW2.vo", "C16/ProofsBW3.vo", "C16/Corr2.vo", "C16/SpecTest.vo", "C16/Props.vo"]
+           "C16/ProofsBW2.vo", "C16/ProofsBW3.vo", "C16/ProofsClamp.vo", "C16/Corr2.vo", "C16/SpecTest.vo", "C16/Props.vo"]
 PROPS = ["C16/Props.v"]
 CORPUS = os.path.join(vlib.ROOT, "corpus/C16/corpus.jsonl")
 CORPUS2 = os.path.join(vlib.ROOT, "corpus/C16/corpus2.jsonl")
 LAG_WITNESS = os.path.join(vlib.ROOT, "corpus/C16/lag_witness.json")
 PROPOSED = os.path.join(vlib.ROOT, "corpus/C16/known_findings_proposed.json")
-PARTIAL = ("Theorems are over exact real arithmetic (Coq Reals) about the hand-written model coq/C16/Model.v with ONE worker "
-           "thread; the step to binary64 is bounded per sampled case only (bit-exact replay of the normal estimator, 1e-9 "
-           "tolerance decided in Q for the log-scale families and the EM replay, exp values through an Interval-certified table). "
-           "Baum-Welch ascent, vector normal, negative binomial, logistic regression and the numeric estimators are not modelled "
-           "(stated as *_partial / out of model). The normal perturbation check is skipped for ill-conditioned data "
+PARTIAL = ("Theorems are over exact real arithmetic (Coq Reals) about the hand-written models coq/C16/Model.v / ModelHmm.v with ONE "
+           "worker thread; the step to binary64 is bounded per sampled case only (bit-exact replay of the normal estimator, 1e-9 "
+           "tolerance decided in Q for the log-scale families, the EM replay and the Baum-Welch replay; exp values through an "
+           "Interval-certified table; three quarters of the Baum-Welch cases evaluate the model in binary64 instead of 100-bit "
+           "rationals, relying on the (not machine-checked) error bound for + * / on non-negative numbers). Baum-Welch: no start / "
+           "final states, categorical emissions in the tie; ascent is proved for emission M-steps satisfying the stated component "
+           "hypothesis. Vector normal, scalarIid/scalarId products, negative binomial, logistic regression and the numeric "
+           "estimators are not modelled. The normal perturbation check is skipped for ill-conditioned data "
            "(exact variance < 2^-20 E[x^2]) where E[x^2]-E[x]^2 cancels in binary64.")
 
 
